@@ -22,6 +22,7 @@ def run(ck):
                       "connection with its id — at each point of the QoS 2 handshake (PUBLISH sent, PUBREC not read, PUBREC read, PUBREL sent, PUBCOMP not read) and of "
                       "the QoS 1 handshake, with one and with four ids in flight, resumes and retransmits per protocol: qos2_exactly_once (subscriber and accepted "
                       "Publish calls on the backend log), qos1_at_least_once, pubrel_answered, session_present, order, publisher_serves (probe); clean reconnect "
-                      "(clean_discards); backend held at the entry of Publish: no PUBACK / PUBCOMP / delivery before it accepts (ack_after_accept)")
+                      "(clean_discards); a PUBREL's Publish held past a 300 ms kill timeout while the publisher is cut, resumes and retransmits "
+                      "(whatever becomes of the second connection, handed on exactly once); backend held at the entry of Publish: no PUBACK / PUBCOMP / delivery before it accepts (ack_after_accept)")
     if ex:
         ck.samples = ck.samples[:4] + [l for l in ex if l.startswith("direct ")][:3]
